@@ -114,10 +114,9 @@ func main() {
 	c.Assume("the process runs with TZ=UTC; family boundaries in other zones are C13's subject")
 	c.Assume("generated timestamps keep >= 1 min distance from write-window edges relative to the real clock; unset timestamps are checked against a bracket around the call")
 
-	quick := c.Quick()
 	var units []unit
-	n1 := c.Pick(16, 320) // conversion units (phase 1), ~640 mini batches each in quick
-	n2 := c.Pick(16, 320) // routing units (phase 2)
+	n1 := c.Pick(16, 256) // conversion units (phase 1)
+	n2 := c.Pick(16, 256) // routing units (phase 2)
 	n3 := c.Pick(4, 32)   // flat stream framing units
 	for i := 0; i < n1; i++ {
 		units = append(units, unit{"convert", i})
@@ -128,41 +127,13 @@ func main() {
 	for i := 0; i < n3; i++ {
 		units = append(units, unit{"flatstream", i})
 	}
-	_ = quick
+	for i := 0; i < c.Pick(4, 32); i++ {
+		units = append(units, unit{"fuzz", i})
+	}
 	scratch := c.Scratch()
 	timeout := time.Duration(c.Pick(150, 2400)) * time.Second
 	var mu sync.Mutex
-	results := make([]*childResult, len(units))
-	core.Parallel(len(units), 16, func(i int) {
-		u := units[i]
-		name := fmt.Sprintf("%s-%d", u.Phase, u.Index)
-		out := filepath.Join(scratch, name+".json")
-		logf := filepath.Join(scratch, name+".log")
-		cr := core.RunChild("", []string{"child", u.Phase, strconv.Itoa(u.Index), out},
-			[]string{"GOMAXPROCS=1", "TZ=UTC", "LOG_LEVEL=fatal", "VERIF_TIER=" + c.Tier}, timeout, logf)
-		var res childResult
-		data, err := os.ReadFile(out)
-		if err == nil {
-			err = json.Unmarshal(data, &res)
-		}
-		mu.Lock()
-		defer mu.Unlock()
-		if err != nil || !res.Done {
-			if cr.TimedOut {
-				c.Inconclusive("child %s hit the watchdog (%v)", name, timeout)
-			} else {
-				// a crash of the real code under generated input
-				c.Violation("C16/child-crashed/"+u.Phase, fmt.Sprintf("child %s exited with code %d without a result: %s", name, cr.ExitCode, tail(cr.Output, 1500)),
-					map[string]interface{}{"unit": name, "output": tail(cr.Output, 6000)})
-			}
-			return
-		}
-		results[i] = &res
-	})
-	for _, res := range results {
-		if res == nil {
-			continue
-		}
+	merge := func(res *childResult) {
 		c.Eval(res.Evals)
 		for k, v := range res.Counters {
 			c.Count(k, v)
@@ -182,6 +153,43 @@ func main() {
 			c.Inconclusive("%s: %s", res.Unit, s)
 		}
 	}
+	// samples and first witnesses are taken in unit order so that the evidence does not depend on scheduling
+	pending := map[int]*childResult{}
+	next := 0
+	core.Parallel(len(units), 16, func(i int) {
+		u := units[i]
+		name := fmt.Sprintf("%s-%d", u.Phase, u.Index)
+		out := filepath.Join(scratch, name+".json")
+		logf := filepath.Join(scratch, name+".log")
+		cr := core.RunChild("", []string{"child", u.Phase, strconv.Itoa(u.Index), out},
+			[]string{"GOMAXPROCS=1", "TZ=UTC", "LOG_LEVEL=fatal", "VERIF_TIER=" + c.Tier}, timeout, logf)
+		res := &childResult{}
+		data, err := os.ReadFile(out)
+		if err == nil {
+			err = json.Unmarshal(data, res)
+		}
+		_ = os.Remove(out)
+		_ = os.Remove(logf)
+		mu.Lock()
+		defer mu.Unlock()
+		if err != nil || !res.Done {
+			res = &childResult{Unit: name}
+			if cr.TimedOut {
+				res.Inconclusive = append(res.Inconclusive, fmt.Sprintf("child hit the watchdog (%v)", timeout))
+			} else {
+				// a crash of the real code under generated input
+				res.Violations = append(res.Violations, childViolation{Class: "C16/child-crashed/" + u.Phase, Count: 1,
+					Message: fmt.Sprintf("child %s exited with code %d without a result: %s", name, cr.ExitCode, tail(cr.Output, 1500)),
+					Witness: map[string]interface{}{"unit": name, "output": tail(cr.Output, 6000)}})
+			}
+		}
+		pending[i] = res
+		for pending[next] != nil {
+			merge(pending[next])
+			delete(pending, next)
+			next++
+		}
+	})
 	// the workload must have observed what the oracles rely on
 	need := map[string]int64{
 		"rows_read_back_and_compared":          1000,
@@ -228,6 +236,8 @@ func childMain(args []string) {
 		runRoute(c, r, idx)
 	case "flatstream":
 		runFlatStream(c, r, idx)
+	case "fuzz":
+		runFuzz(c, r, idx)
 	default:
 		fmt.Println("unknown phase", args[0])
 		os.Exit(3)
